@@ -26,10 +26,17 @@ import (
 	"time"
 )
 
-const (
-	repoDir = "/repo"
-	goBin   = "go1.26.8"
-)
+const goBin = "go1.26.8"
+
+// repoDir is the tree under test: /repo's current working tree. $VERIF_REPO overrides it for
+// development runs only (background exploration of a pristine copy while seeded changes are being
+// applied to /repo); the registered commands never set it.
+var repoDir = func() string {
+	if v := os.Getenv("VERIF_REPO"); v != "" {
+		return v
+	}
+	return "/repo"
+}()
 
 // verifDir is the root of the verification tree: the parent of the directory holding this binary
 // (so that a snapshot of /verif elsewhere works on its own files), or $VERIF_DIR.
